@@ -205,6 +205,9 @@ func newWorkload(name string, seed int64, opt workloadOpts) *workload {
 		wl.opt.maxSteps = 400
 	}
 	wl.distAt = 3 + rng.Intn(40)
+	if opt.noReader {
+		wl.distAt = 30 + rng.Intn(60)
+	}
 	if opt.noReader && len(wl.plans) > 0 {
 		p := wl.plans[0]
 		p.shape = "BD"
@@ -277,6 +280,9 @@ func (wl *workload) Next(w *World, step int) string {
 		switch wl.opt.disturb {
 		case "cancel":
 			p := wl.plans[rng.Intn(len(wl.plans))]
+			if wl.opt.noReader {
+				p = wl.plans[0]
+			}
 			if p.newIssued {
 				p.cancelled = true
 				return fmt.Sprintf("ccancel r=%d", p.r)
